@@ -94,8 +94,33 @@ Definition spec_vs_obs (q : qcase) (o : obs) : N :=
   | _ => 0
   end.
 
-(* per case: (model agrees?, spec code, number of spec rows) *)
-Definition verdict (qo : qcase * obs) : N * N * N :=
-  ((if agrees_model (fst qo) (snd qo) then 1 else 0), spec_vs_obs (fst qo) (snd qo), N.of_nat (length (run_spec (fst qo)))).
+(* which single repair would make the model coincide with the specification on this case (used to attribute a
+   deviation from the specification to exactly one known defect): the model is re-run with one flag switched on *)
+Definition with_flag (e : cfg) (i : N) : cfg :=
+  match i with
+  | 0 => mkCfg true (strlit_invalid e) (fix9 e) (fix14 e) (fix15 e) (fixoid e)
+  | 1 => mkCfg (ks e) (strlit_invalid e) true (fix14 e) (fix15 e) (fixoid e)
+  | 2 => mkCfg (ks e) (strlit_invalid e) (fix9 e) true (fix15 e) (fixoid e)
+  | 3 => mkCfg (ks e) (strlit_invalid e) (fix9 e) (fix14 e) true (fixoid e)
+  | 4 => mkCfg (ks e) (strlit_invalid e) (fix9 e) (fix14 e) (fix15 e) true
+  | 5 => mkCfg (ks e) false (fix9 e) (fix14 e) (fix15 e) (fixoid e)
+  | _ => mkCfg true false true true true true
+  end.
 
-Definition verdicts (l : list (qcase * obs)) : list (N * N * N) := map verdict l.
+Definition model_is_spec (e : cfg) (q : qcase) : bool :=
+  match execute e (q_graphs q) (q_lo q) (q_clauses q) (q_outs q) (q_projs q) with
+  | Ok (_, rows) => multiset_eqb (list_eqb ocell_equiv) (run_spec q) rows
+  | _ => false
+  end.
+
+Definition fixmask (q : qcase) : N :=
+  fold_left (fun acc i => if model_is_spec (with_flag (q_cfg q) i) q then acc + N.shiftl 1 i else acc)
+            [0; 1; 2; 3; 4; 5; 6] 0.
+
+(* per case: (model agrees?, spec code, number of spec rows, mask of repairs that would close the gap to the spec) *)
+Definition verdict (qo : qcase * obs) : N * N * N * N :=
+  let a := if agrees_model (fst qo) (snd qo) then 1 else 0 in
+  let b := spec_vs_obs (fst qo) (snd qo) in
+  (a, b, N.of_nat (length (run_spec (fst qo))), if N.eqb b 2 then 0 else fixmask (fst qo)).
+
+Definition verdicts (l : list (qcase * obs)) : list (N * N * N * N) := map verdict l.
